@@ -5,7 +5,10 @@
 // sqlite, and buffer.New(memory, X, max) over each of them) and every result is compared
 // with a reference model (Go map + byte-ordered key slice).  Two bounded sub-checks observe
 // batch unity: a concurrent reader over keys that batches always write together
-// (batch-torn), and a batch whose commit is made to fail (batch-partial).
+// (batch-torn), and a batch whose commit is made to fail (batch-partial).  Histories also
+// commit batches that must change nothing (no mutations, only over-limit sets, only deletes
+// of absent keys; noop.go), and a concurrent family runs single-writer-per-key writers next
+// to Flush calls on one write buffer (conc.go).
 package main
 
 import (
@@ -24,7 +27,7 @@ import (
 const rule = "seeded histories of 100-600 operations (get/set/delete/batch of 1-52 mixed sets and deletes with repeated keys/" +
 	"find over [start,end) incl. empty, equal and inverted bounds, stopped early/flush/close+reopen/wipe/read transaction) over a clustered key universe " +
 	"(prefixes of each other, '|' ':' '%' space '~', multi-byte UTF-8, raw high bytes, lengths 1, max-1/max/max+1 and 70000) and values " +
-	"(empty, short, max-1/max/max+1 bytes) on 16 implementations, every result compared with a map + sorted-slice model; " +
+	"(empty, short, max-1/max/max+1 bytes) on 16 implementations, every result compared with a map + sorted-slice model, about one op in 20 followed by a batch that must change nothing (no mutations / only over-limit sets / only deletes of absent keys) and a full audit; " +
 	"plus per implementation histories pre-loaded with 2000-5000 index-style keys through batches (overwritten and deleted in runs of neighbours, scans stopped after 0-3000 pairs); " +
 	"distinct = (implementation, hash of the executed operation sequence); non-trivial = the history contains >=1 batch that repeats a key, " +
 	">=1 delete of a present key, >=3 range scans, and >=1 over-limit mutation"
@@ -40,6 +43,9 @@ func run(r *ev.Run) {
 	r.Assume("batch unity under concurrency is judged only for leveldb, sqlite and kv (documented transactional batches); memory and buffer are reported, not judged")
 	r.Assume("failed-commit atomicity is forced by committing after Close on leveldb and kv (clean error); on sqlite by a statement of the batch that the database refuses (a harness-installed trigger raises ABORT for one poisoned key, first / inside / last in the batch) and by Close between BeginBatch and CommitBatch; buffer with an injected backing error is reported, not judged; kv file has no control point for a failure in the middle of a batch (modernc kv accepts a delete of any key length; its writes reach the file only at commit)")
 	r.Assume("the optional interfaces are judged by their documentation in pkg/sorted/kv.go: after Wiper.Wipe the store is the empty map and goes on as a map; reads through a ReadTransaction equal the map as it was at BeginReadTx (later writes are interleaved only on leveldb: the sqlite transaction holds the store's gate until closed)")
+
+	r.Assume("a batch without mutations, a batch of only over-limit sets and a batch that only deletes absent keys are committed batches with zero applied mutations: CommitBatch returns nil and the map is unchanged")
+	r.Assume("one buffer.KeyValue is used from several goroutines (buffer.go documents its read/write lock for exactly that, and flushes from whichever goroutine's Set crosses the limit); concurrency is judged only per key with a single writer goroutine: that writer's own Get between its writes, and everything after all goroutines have returned, equal its last write; Flush is not a map operation. Nothing is judged about reads racing with another goroutine's write, and no verdict depends on time")
 
 	root := ev.Scratch("c10")
 	defer os.RemoveAll(root)
